@@ -119,6 +119,11 @@ def _templates(ch, allow_raising: bool):
         ("forall <x> in <fd>: int(<x>) <= int(<fa>)", "QUANT", lambda m: all(int(x) <= int(a) for a in _texts(m, "fa") for x in _texts(m, "fd")), "forall-free"),
         ("exists <x> in <fd>: int(<x>) >= int(<fb>)", "QUANT", lambda m: all(any(int(x) >= int(b) for x in _texts(m, "fd")) for b in _texts(m, "fb")), "exists-free"),
         ("forall <x> in <fd>: int(<x>) %% %d == %d" % (k, r), "QUANT", lambda m, k=k, r=r: all(int(x) % k == r for x in _texts(m, "fd")), "forall"),
+        ("forall <fd> in <fds>.<fd>: int(<fd>) < 900", "QUANT", lambda m: all(int(x) < 900 for x in _texts(m, "fd")), "forall-selfbound"),
+        ("exists <d> in <fds>.<fd>: int(<d>) >= int(<fb>)", "QUANT", lambda m: all(any(int(x) >= int(b) for x in _texts(m, "fd")) for b in _texts(m, "fb")), "exists-selector-free"),
+        ("int(<fa>) <= LIM", ["fa"], lambda a: int(a) <= 900, "python-global"),
+        ("all(int(str(LIM)) <= 999 for LIM in *<fds>.<fd>)", "QUANT", lambda m: True, "comprehension-shadows-global"),
+        ("str(<ra>) == str(<rb>)", ["ra", "rb"], lambda a, b: a == b, "eq-bounded-repetitions"),
         ("forall <x> in <fd>: exists <y> in <fd>: int(<y>) >= int(<x>) and int(<x>) <= int(<fa>)", "QUANT", lambda m: all(any(int(y) >= int(x) and int(x) <= int(a) for y in _texts(m, "fd")) for a in _texts(m, "fa") for x in _texts(m, "fd")), "forall-exists-free"),
     ]
     if allow_raising:
@@ -145,7 +150,7 @@ def gen_searchspec(ch, cfg: dict) -> SearchSpec:
     allow_raising = ch.coin(cfg.get("raising_rate", 0.3), "spec", "raising")
     # ---- body grammar ------------------------------------------------------------
     body = G.gen_grammar(ch, dict(cfg.get("grammar", {}), modes=["text"], max_rules=cfg.get("body_rules", 3), min_rules=1, utf8=True, ambiguous_regex=False))
-    items = [("nt", "fa"), ("lit", ":"), ("nt", "fb"), ("lit", ":"), ("nt", "fc"), ("lit", ":"), ("star", ("cat", (("nt", "fd"), ("lit", ",")))), ("lit", "|")]
+    items = [("nt", "fa"), ("lit", ":"), ("nt", "fb"), ("lit", ":"), ("nt", "fc"), ("lit", ":"), ("nt", "fds"), ("lit", "|"), ("nt", "ra"), ("lit", "^"), ("nt", "rb"), ("lit", "|")]
     if allow_raising:
         # several occurrences: a raising combination next to satisfied ones
         items += [("rep", ("cat", (("nt", "fe"), ("lit", "."))), 1, 3), ("rep", ("cat", (("nt", "fz"), ("lit", "."))), 1, 3), ("nt", "row"), ("lit", "|")]
@@ -174,7 +179,12 @@ def gen_searchspec(ch, cfg: dict) -> SearchSpec:
     s.rules["fa"] = ("rx", r"[0-9]{1,3}", "d")
     s.rules["fb"] = ("rx", r"[0-9]{1,3}", "d")
     s.rules["fc"] = ("rx", r"[a-d]+", "l")
+    s.rules["fds"] = ("star", ("cat", (("nt", "fd"), ("lit", ","))))
     s.rules["fd"] = ("rx", r"[0-9]{1,3}", "d")
+    # two bounded repetitions with different maxima over the same element (equality repair parses one into the other)
+    s.rules["ra"] = ("rep", ("nt", "rc"), 1, 3)
+    s.rules["rb"] = ("rep", ("nt", "rc"), 1, 4)
+    s.rules["rc"] = ("rx", r"[ab]", "p")
     if allow_raising:
         s.rules["fe"] = ("rx", r"[0-9a]", "e")
         s.rules["fz"] = ("rx", r"[0-9]", "d")
@@ -240,8 +250,9 @@ def gen_searchspec(ch, cfg: dict) -> SearchSpec:
         n_extra = 1 + ch.draw(len(s.cons), "spec", "nextra")
     s.extra_constraints = [c["text"][len("where ") :] for c in s.cons[len(s.cons) - n_extra :]] if n_extra else []
     s.constraints = [c["text"] for c in (s.cons[: len(s.cons) - n_extra] if n_extra else s.cons)]
+    s.py_prelude = ["LIM = 900"]
     if n_gen or n_dep:
-        s.py_prelude = ["from simfw import bridge as _vb"]
+        s.py_prelude.append("from simfw import bridge as _vb")
     return s
 
 
